@@ -81,7 +81,7 @@ def extend_sites(prog):
 def check_extend_sites(ctx, rep, rule):
     prog = ctx.prog
     sites = extend_sites(prog)
-    rep.floor(rule, "IndexCollector::extend call sites", len(sites), 5)
+    rep.floor(rule, "IndexCollector::extend call sites", len(sites), 3)
     ordn = {}
     for (b, bb, t, sl) in sites:
         k = fn_key(b)
